@@ -67,12 +67,19 @@ func verifN() int        { return verifModel.N }
 func verifNative() bool  { return true }
 func verifRegister(name string, f func()) { verifEntries[name] = f }
 
+// verifLongPad: names equal (in the model) to the designated over-long name get the same 256-byte prefix, so that
+// all equalities of the model are preserved while the real OS refuses the name with ENAMETOOLONG.
+var verifLongPad = strings.Repeat("~", 256)
+
 func verifStrVal(label, dflt string) string {
 	k := verifKey("s_", label)
 	if h, ok := verifModel.Strs[k]; ok {
 		b, err := hex.DecodeString(h)
 		if err != nil {
 			panic("bad hex in model for " + k)
+		}
+		if lh, ok := verifModel.Strs["s_long_0"]; ok && lh == h {
+			return verifLongPad + string(b)
 		}
 		return string(b)
 	}
@@ -83,6 +90,13 @@ func verifStrVal(label, dflt string) string {
 func verifStr(label string) string  { return verifStrVal(label, "") }
 func verifText(label string) string { return verifStrVal(label, "t") }
 func verifName(label string) string { return verifStrVal(label, "n") }
+func verifLongName(label string) string {
+	s := verifStrVal(label, "n")
+	if !strings.HasPrefix(s, verifLongPad) {
+		s = verifLongPad + s
+	}
+	return s
+}
 
 func verifBytes(label string, n int) string {
 	b := make([]byte, n)
